@@ -5,6 +5,7 @@ import (
 	"errors"
 	"fmt"
 	"log/slog"
+	"reflect"
 	"strconv"
 	"strings"
 
@@ -42,8 +43,11 @@ func makeInner(msg string) *errs.Error { mark(); return errs.New(msg) }
 type fmtArea struct{}
 
 var fmtKinds = []string{"new", "newf", "cause", "causef", "wrap", "wraptyped", "appendplain", "appendnil", "agg", "empty", "recover", "log",
-	"newfargs", "deep", "causechain", "wrapas", "late", "isas", "recoverkinds", "logall", "logvalue", "filter", "clone"}
-var causeKinds = []string{"plain", "fwrap", "errs", "nil", "tnil", "fnil", "fwraperrs", "errorf", "join"}
+	"newfargs", "deep", "causechain", "wrapas", "late", "isas", "recoverkinds", "logall", "logvalue", "filter", "clone", "nilkinds"}
+var causeKinds = []string{"plain", "fwrap", "errs", "nil", "tnil", "fnil", "fwraperrs", "errorf", "join",
+	// typed nils of every nilable kind, non-nil values of the same types, error types that cannot be nil, zero values
+	"fnil-slice", "fnil-map", "fnil-func", "fnil-chan", "fnil-scanner",
+	"p-slice", "p-slice0", "p-map", "p-func", "p-chan", "p-struct", "p-string", "p-int", "z-struct", "z-string", "z-int"}
 
 // sizes around the places where fixed buffers, growth policies and the number of digits of the count change
 var aggSizes = []int{2, 3, 4, 5, 9, 10, 11, 12, 16, 17, 32, 33, 64, 65, 99, 100, 128, 129, 256, 257, 1000}
@@ -53,7 +57,7 @@ var oracleMsgs = append(append([]string{}, msgs...), "\xff\xfe not utf8", string
 func (fmtArea) Gen(r *hx.Rng, n int, _ string, emit func(string)) {
 	// fixed preamble: errors built with a typed-nil cause (fix f303e30) are rendered with every verb
 	for _, k := range []string{"cause", "causef", "log", "recover", "wrap", "wraptyped", "appendplain", "appendnil"} {
-		for _, c := range []string{"tnil", "fnil"} {
+		for _, c := range []string{"tnil", "fnil", "fnil-slice", "fnil-map", "fnil-func", "fnil-chan", "fnil-scanner"} {
 			emit("chk " + k + " " + c + " 61 62 2")
 			emit("chk " + k + " " + c + " - - 2")
 		}
@@ -82,10 +86,22 @@ func causeOf(kind, msg string) error {
 		return fmt.Errorf("saving %q: %w", msg, makeInner(msg))
 	case "join":
 		return errors.Join(errors.New("j1 "+msg), makeInner(msg))
+	case "z-struct":
+		return structErr{}
+	case "z-string":
+		return strErr("")
+	case "z-int":
+		return intErr(0)
 	case "tnil":
 		return (*errs.Error)(nil)
 	case "fnil":
 		return (*fptr)(nil)
+	}
+	if k, ok := strings.CutPrefix(kind, "fnil-"); ok {
+		return foreignNil(k)
+	}
+	if k, ok := strings.CutPrefix(kind, "p-"); ok {
+		return foreignPlain(k, msg)
 	}
 	return nil
 }
@@ -162,10 +178,11 @@ func checkRender(e *errs.Error, wantMsg, creator string, cause error, wrapped bo
 		return fmt.Sprintf("FAIL %%+v lacks the runtime frames: %q", pv)
 	}
 	if cause != nil {
-		if errors.Unwrap(e) != cause {
+		if !sameVal(errors.Unwrap(e), cause) {
 			return "FAIL Unwrap does not return the cause"
 		}
-		if !errors.Is(e, cause) {
+		// errors.Is compares with ==, which Go defines only for comparable dynamic types (not slices, maps, funcs)
+		if reflect.TypeOf(cause).Comparable() && !errors.Is(e, cause) {
 			return "FAIL errors.Is does not reach the cause"
 		}
 		if fw, ok := cause.(*fwrap); ok {
@@ -282,7 +299,7 @@ func (fmtArea) Run(line string) string {
 			creator = "makeWrapTyped"
 		}
 		switch ckind {
-		case "nil", "tnil", "fnil":
+		case "nil", "tnil", "fnil", "fnil-slice", "fnil-map", "fnil-func", "fnil-chan", "fnil-scanner":
 			if kind == "wrap" && res != nil {
 				fail = "FAIL Wrap(nil) is not nil"
 			}
@@ -293,6 +310,9 @@ func (fmtArea) Run(line string) string {
 			var fn *fptr
 			if errs.Wrap(tn) != nil || errs.Wrap(fn) != nil || errs.WrapTyped(tn) != nil || errs.WrapTyped(fn) != nil {
 				fail = "FAIL Wrap/WrapTyped of a typed nil is not nil"
+			}
+			if fail == "" {
+				fail = checkNilKinds(msg)
 			}
 		case "fwraperrs", "errorf", "join":
 			// the cause is not an *Error but wraps one: Wrap returns it as is, WrapTyped wraps it again
@@ -395,7 +415,7 @@ func (fmtArea) Run(line string) string {
 			fail = "FAIL %v of an empty error"
 		}
 	case "recover":
-		if ckind == "tnil" || ckind == "fnil" {
+		if ckind != "nil" && isNilish(cause) {
 			// panic(typed nil error): Recovery hands it to NewWithCause, which drops it; the result must render
 			got := doRecover(causeOf(ckind, cmsg))
 			e, ok := got.(*errs.Error)
@@ -422,7 +442,7 @@ func (fmtArea) Run(line string) string {
 			fail = "FAIL Recovery did not hand an *Error to the handler"
 		case e.Message() != "recovered from panic":
 			fail = "FAIL Recovery message"
-		case !errors.Is(e, cause) || errors.Unwrap(e) != cause:
+		case (reflect.TypeOf(cause).Comparable() && !errors.Is(e, cause)) || !sameVal(errors.Unwrap(e), cause):
 			fail = "FAIL Recovery lost the panic value"
 		case !strings.Contains(fmt.Sprintf("%v", e), "[main.panicWith] "):
 			fail = fmt.Sprintf("FAIL Recovery stack does not name the panicking function: %q", fmt.Sprintf("%v", e))
